@@ -43,9 +43,14 @@ except Exception:                       # attrs not installed: the dimension is 
     NodeAttrs = NodeSlots = None
 
 ATTRS_FIELDS = ["a", "b", "x", "data"]
+TWIN_CLASSES = ["twin.NodeA", "twin.NodeB"]     # same class names, defined in harness.c01_classes_twin
 CLASSES = {"NodeA": NodeA, "NodeB": NodeB, "NodeC": NodeC}
 if NodeAttrs is not None:
     CLASSES.update({"NodeAttrs": NodeAttrs, "NodeSlots": NodeSlots})
+
+
+from . import c01_classes_twin as _twin     # noqa: E402  (imported after the classes above exist)
+CLASSES.update(_twin.CLASSES)
 
 
 class TinyNet(torch.nn.Module):
